@@ -1,0 +1,20 @@
+//go:build verif
+
+package smtp
+
+import (
+	"context"
+	"net"
+)
+
+// VerifSessionHoldMsgPermit takes the per-message permits (all, ip 127.0.0.1,
+// source domain) the way another session of that sender domain would and
+// returns the function that gives them back. Used by the /verif session
+// harness to keep a source limit exhausted while the session under test runs.
+func (endp *Endpoint) VerifSessionHoldMsgPermit(domain string) (release func(), err error) {
+	ip := net.IPv4(127, 0, 0, 1)
+	if err := endp.limits.TakeMsg(context.Background(), ip, domain); err != nil {
+		return nil, err
+	}
+	return func() { endp.limits.ReleaseMsg(ip, domain) }, nil
+}
